@@ -77,12 +77,12 @@ fn strip_events(p: &mut exec::PassResult) {
     }
 }
 
-pub fn scenario_for(seed: u64, i: u64, tier: u32, total_random: u64) -> model::Scenario {
+pub fn scenario_for(seed: u64, i: u64, tier: u32, total_random: u64, sweep_stride: u64) -> model::Scenario {
     let methods = exec::method_names();
     if i < total_random {
         model::generate(seed, i, tier, &methods)
     } else {
-        sweep::generate(seed, i - total_random, &methods)
+        sweep::generate(seed, (i - total_random) * sweep_stride.max(1), &methods)
     }
 }
 
@@ -103,6 +103,7 @@ fn worker(args: &[String]) -> i32 {
     let stride = arg_u64(args, "--stride", 1);
     let offset = arg_u64(args, "--offset", 0);
     let first = arg_u64(args, "--first", 0);
+    let sweep_stride = arg_u64(args, "--sweep-stride", 1);
     let out_dir = arg_val(args, "--out").unwrap_or_else(|| die("--out"));
     let name = arg_val(args, "--name").unwrap_or_else(|| offset.to_string());
     let ctx = exec::Ctx {
@@ -122,7 +123,7 @@ fn worker(args: &[String]) -> i32 {
             continue;
         }
         std::fs::write(&progress_path, format!("{i}\n")).ok();
-        let sc = scenario_for(seed, i, tier, total_random);
+        let sc = scenario_for(seed, i, tier, total_random, sweep_stride);
         let t0 = std::time::Instant::now();
         let (resolved, strict, inject) = run_one(&ctx, &sc);
         let wall_us = t0.elapsed().as_micros() as u64;
@@ -169,7 +170,7 @@ fn show(args: &[String]) -> i32 {
     let run = arg_u64(args, "--run", 0);
     let tier = tier_num(&arg_val(args, "--tier").unwrap_or_else(|| "quick".into()));
     let total_random = arg_u64(args, "--random", u64::MAX);
-    println!("{}", serde_json::to_string_pretty(&scenario_for(seed, run, tier, total_random)).unwrap());
+    println!("{}", serde_json::to_string_pretty(&scenario_for(seed, run, tier, total_random, arg_u64(args, "--sweep-stride", 1))).unwrap());
     0
 }
 
